@@ -207,6 +207,35 @@ def check_random_case(case):
         q_arg = (q_list if qf == 1 else iter(q_list) if qf == 2
                  else (x_ for x_ in q_list))
     den = Den(b, nm)
+    if case.get('limit') is not None:
+        # the documented node limit is reached in mid-operation: either
+        # RuntimeError, or the right result
+        b.max_nodes = len(b) + case['limit']
+        try:
+            fn_ = getattr(_bdd, op)
+            r_ = fn_(ft.node, fs.node, dict(ren_arg), set(
+                {lv[x] for x in case['qvars']} if case['as_levels']
+                else case['qvars']), b, fa)
+        except RuntimeError:
+            r_ = None
+        except AssertionError:
+            r_ = None
+        finally:
+            b.max_nodes = 10 ** 9
+        if r_ is not None:
+            want_ = (expected_pre if op == 'preimage' else expected_img)(
+                tr, st, n, ren_idx, q, fa)
+            ok_ = op == 'preimage' or image_precondition(
+                tr, st, n, ren_idx, q)
+            if ok_ and (op == 'image' or adjacent(
+                    order, list(ren_names.items()))):
+                require(abs(r_) in b._succ and Den(b, nm)(r_) == want_,
+                        f'{op}.wrong_result_at_node_limit',
+                        dict(limit=case['limit']))
+        d0 = Den(b, nm)
+        require(d0(ft.node) == tr and d0(fs.node) == st,
+                'operand_changed')
+        den = Den(b, nm)
     if op == 'preimage':
         want = expected_pre(tr, st, n, ren_idx, q, fa)
         if case['api'] == 'autoref':
@@ -311,6 +340,8 @@ def run_random(spec, out):
                     pairs=used, trans=table(), set=table(), qvars=qv,
                     forall=draw(st.booleans()),
                     qform=draw(st.integers(0, 3)),
+                    limit=draw(st.sampled_from([None, None, None, 0, 1, 2,
+                                                3, 5, 8])),
                     as_levels=draw(st.booleans()),
                     api=draw(st.sampled_from(['bdd', 'autoref'])))
 
